@@ -1,3 +1,23 @@
-From Thunder Require Import Lib.Json Gql.Types Gql.Value Gql.Query Gql.Ref Gql.Exec.
-Theorem placeholder : True. Proof. exact I. Qed.
-Print Assumptions placeholder.
+(** C19: @skip/@include behave as textual deletion.  Statements only; proofs are in Gql/Proofs*.v. *)
+From Coq Require Import List String Bool.
+From Thunder Require Import Lib.Json Gql.Types Gql.Value Gql.Query Gql.Ref Gql.Exec Gql.ProofsDirective.
+Import ListNotations.
+Open Scope string_scope.
+
+(** A node is kept by ShouldIncludeNode (as repaired) exactly when every directive on it allows it:
+    with both directives, iff @skip does not exclude it and @include does not exclude it; conditions
+    literal or from variables. *)
+Theorem node_included_iff_every_directive_allows : forall vs ds,
+  dirs_wf vs ds = true -> should_include fixed (parse_dirs vs ds) = Ok (allowed vs ds).
+Proof. exact should_include_textual. Qed.
+Print Assumptions node_included_iff_every_directive_allows.
+
+(** The code before the repair (F6) kept a node with @skip(if:false) @include(if:false). *)
+Theorem node_included_original_refuted :
+  exists vs ds, dirs_wf vs ds = true /\ should_include original (parse_dirs vs ds) <> Ok (allowed vs ds).
+Proof. exact should_include_original_refuted. Qed.
+Print Assumptions node_included_original_refuted.
+
+Example hypotheses_satisfiable :
+  dirs_wf [("v", JBool true)] [SDir "include" (CVar "v"); SDir "skip" (CLit (JBool false))] = true.
+Proof. reflexivity. Qed.
